@@ -1,7 +1,7 @@
 (* C20 - documented conversions are mutually inverse and canonical.  Statements only.
-   JSON: not modelled in Coq (checked by correspondence against an independent parser only) - see DESIGN.md. *)
+   JSON: serialiser and reader modelled in Conv/Json.v (float -> shortest decimal is supplied by the correspondence). *)
 From Coq Require Import List ZArith Bool String.
-From Xr Require Import Base.Res Conv.Dates Conv.DatesProofs Conv.Fractions Conv.FractionsProofs Conv.ConvInst
+From Xr Require Import Conv.Json Conv.JsonProofs Base.Res Conv.Dates Conv.DatesProofs Conv.Fractions Conv.FractionsProofs Conv.ConvInst
                        Int.Lbi Int.IntFns Int.IntSpec Int.IntProofs.
 Import ListNotations.
 Open Scope Z_scope.
@@ -51,6 +51,29 @@ Theorem C20_radix_digits : forall n b ds, wf n = true -> wf b = true -> int_digi
   from_digits (map den ds) (den b) = den n.
 Proof. exact int_digits_ok. Qed.
 
+(* JSON: what the serialiser writes, the reader (an RFC 8259 reader with serde_json's recursion limit) reads back as the same
+   document, for every well-formed value (strings of arbitrary non-negative code points, canonical decimals, any arrays and
+   objects) nested less than 128 deep ... *)
+Theorem C20_json_roundtrip : forall v, wfj v = true -> (jdepth v < depth_limit)%nat -> jparse (jser v) = Some v.
+Proof. exact json_roundtrip. Qed.
+(* ... and the statement is FALSE without the depth bound (known finding: a document nested 128 deep is serialised but the
+   reader refuses it) *)
+Theorem C20_json_depth_limit_refuted : exists v, wfj v = true /\ jparse (jser v) = None.
+Proof. exact json_depth_limit_refuted. Qed.
+(* every part on its own: strings (all escapes), numbers (all four layouts of the float text), inside any context *)
+Theorem C20_json_string_roundtrip : forall s rest, forallb char_ok s = true ->
+  pstr (flat_map esc_char s ++ 34 :: rest) = Some (s, rest).
+Proof. exact pstr_ser. Qed.
+Theorem C20_json_number_roundtrip : forall d rest, wf_dec d = true -> follow_ok rest = true ->
+  pnum (ser_num d ++ rest) = Some (d, rest).
+Proof. exact pnum_ser. Qed.
+Example C20_json_nonvacuous :
+  wfj (JObj [([97; 233], JArr [JNum (mkd true [1; 5] 1); JStr [34; 10; 1; 128512]; JNum (mkd false [1] 17)])]) = true /\
+  jparse [32; 123; 34; 92; 117; 100; 56; 51; 100; 92; 117; 100; 101; 48; 48; 34; 32; 58; 91; 49; 46; 53; 48; 69; 43; 49;
+          44; 10; 45; 48; 93; 125; 10]
+  = Some (JObj [([128512], JArr [JNum (mkd false [1; 5] 2); JNum dzero])]).
+Proof. vm_compute. split; reflexivity. Qed.
+
 Example C20_nonvacuous :
   show_date (date_of (-1000000)) = "Date(-7451, 12, 28)"%string /\ julian_day (mkdate 1970 1 1) = 2440588 /\
   show_dt (datetime_of (-1)) = "Datetime(Date(1969, 12, 31), 23, 59, 59)"%string /\
@@ -73,3 +96,8 @@ Print Assumptions C20_fraction_div.
 Print Assumptions C20_fraction_unique.
 Print Assumptions C20_radix_digits.
 Print Assumptions C20_nonvacuous.
+Print Assumptions C20_json_roundtrip.
+Print Assumptions C20_json_depth_limit_refuted.
+Print Assumptions C20_json_string_roundtrip.
+Print Assumptions C20_json_number_roundtrip.
+Print Assumptions C20_json_nonvacuous.
